@@ -36,8 +36,10 @@ InWin(st, ea, n)  == WinSane(st) /\ Off(st, ea) + n <= WinLen(st)
 LoadBytes(st, ea, n) == [i \in 1..n |-> st.mem[Off(st, ea) + i]]            \* memory order
 StoreBytes(st, ea, bs) ==
   LET o == Off(st, ea) IN
-  [st EXCEPT !.mem = [j \in 1..Len(st.mem) |->
-                        IF j > o /\ j <= o + Len(bs) THEN bs[j - o] ELSE st.mem[j]]]
+  \* TLCEval: TLC builds function constructors lazily; without forcing, a value computed by a long run of
+  \* instructions is a nest of closures whose evaluation cost grows exponentially (Trace_C06 runs programs)
+  [st EXCEPT !.mem = TLCEval([j \in 1..Len(st.mem) |->
+                        IF j > o /\ j <= o + Len(bs) THEN bs[j - o] ELSE st.mem[j]])]
 \* value (little-endian limbs) <-> bytes in memory order
 Rev(s)            == [i \in 1..Len(s) |-> s[Len(s) + 1 - i]]
 ValOf(bs, big)    == IF big THEN Rev(bs) ELSE bs
